@@ -60,6 +60,7 @@ type labConn struct {
 	closeCnt int32
 	once     sync.Once
 	errGo    chan struct{} // e<c> hands one token to every Serve call reading the conn at that moment
+	closeErr bool          // Close reports an error (every second scenario)
 	readErr  chan error    // an injected read failure (f<c>:<kind>), taken by exactly one reader
 	reading  chan struct{} // signalled each time ReadFrom is entered
 	lab      *lab
@@ -96,6 +97,10 @@ func (c *labConn) WriteTo(p []byte, addr net.Addr) (int, error) {
 func (c *labConn) Close() error {
 	atomic.AddInt32(&c.closeCnt, 1)
 	c.once.Do(func() { close(c.closed) })
+	if c.closeErr {
+		// (a Close that reports an error has still closed: "Shutdown closes every registered listener")
+		return errors.New("close: reported by the lab's conn")
+	}
 	return nil
 }
 func (c *labConn) LocalAddr() net.Addr                { return labAddr{fmt.Sprintf("local%d", c.idx)} }
@@ -297,6 +302,9 @@ func runServerScenario(skipVerify bool, secretSpec string, cmds []string, w *os.
 		return "BAD-CASE"
 	}
 	l := newLab(nconn, skipVerify, secrets)
+	for _, c := range l.conns {
+		c.closeErr = (len(cmds)+len(secretSpec))%2 == 1
+	}
 	radius.VerifSetHook(l.hook)
 	defer radius.VerifSetHook(nil)
 	ol := &obsList{w: w}
@@ -1070,6 +1078,41 @@ func genC06(g *Gen, tier string, emit func(op string, args ...string)) {
 				emit("scenario", "0", sec2, strings.Join([]string{"S0", "s0", "D0:" + itoa(pr[0]) + ":" + a, "d0", "D0:" + itoa(pr[2]) + ":" + b, "d1",
 					"D0:" + itoa(pr[0]) + ":" + a, "d2", "F1:2", "F0:2", "Z"}, ","))
 			}
+		}
+		// a VALID request of exactly 4096 octets is served like any other
+		{
+			p := &radius.Packet{Code: radius.CodeAccessRequest, Identifier: 44, Secret: []byte("s")}
+			copy(p.Authenticator[:], g.RandBytes(16))
+			total := 20
+			for total < 4096 {
+				l := 253
+				if 4096-total < 2+l {
+					l = 4096 - total - 2
+				}
+				if l < 0 {
+					break
+				}
+				p.Add(79, g.RandBytes(l))
+				total += 2 + l
+			}
+			if w, err := p.Encode(); err == nil && len(w) == 4096 {
+				emit("scenario", "0", sec, strings.Join([]string{"S0", "s0", "D0:0:" + hx(w), "d0", "F0:2", "Z"}, ","))
+				emit("scenario", "0", sec, strings.Join([]string{"S0", "s0", "D0:0:" + hx(w[:4095]), "d0", "D0:0:" + hx(append(append([]byte{}, w...), 0)), "d1", "Z"}, ","))
+			}
+		}
+		// octets after the Length field: the authenticity predicate hashes what it is handed, Parse ignores
+		// padding — a padded Accounting-/Disconnect-/CoA-Request signed over its Length octets only is not
+		// authentic, one signed over the whole datagram is and is served
+		for _, code := range []int{4, 40, 43} {
+			p := &radius.Packet{Code: radius.Code(code), Identifier: byte(50 + code), Secret: []byte("s")}
+			p.Add(40, radius.NewInteger(1))
+			w, _ := p.Encode()
+			pad := g.RandBytes(g.Pick(1, 6, 300))
+			overLength := append(append([]byte{}, w...), pad...)
+			overAll := append(append([]byte{}, w...), pad...)
+			copy(overAll[4:20], make([]byte, 16))
+			copy(overAll[4:20], md5sum(overAll, []byte("s")))
+			emit("scenario", "0", sec, strings.Join([]string{"S0", "s0", "D0:0:" + hx(overLength), "d0", "D0:0:" + hx(overAll), "d1", "F1:" + itoa(code+1), "D0:0:" + hx(w), "d2", "F2:" + itoa(code+1), "Z"}, ","))
 		}
 		// twenty datagrams of garbage, then a valid request: the server keeps serving
 		{
